@@ -15,6 +15,7 @@ func genAll() {
 	genDerefs()
 	genListeners()
 	genEcho()
+	genBroadcast()
 	genBeaconNode()
 	genDKGRun()
 	genSync()
